@@ -100,9 +100,15 @@ def run_case(case: dict) -> dict:
     for j in range(case["ntasks"]):
         if j != case["pos"]:
             c = sum(1 for r in run.ledger if r["ref"] == "b" and r["task"] == j)
-            want = 1 if (j < case["pos"] or tstatus == "SUCCEEDED") else 0
-            if c != want:
-                out.append(viol("C14/sibling-task-count", f"task {j} of the stage executed {c} times, expected {want}"))
+            if j < case["pos"] or tstatus == "SUCCEEDED":
+                if c != 1:
+                    out.append(viol("C14/sibling-task-count", f"task {j} of the stage executed {c} times, expected 1"))
+            else:
+                # tasks after a terminally failed one: the statement is silent (CompleteTaskHandler
+                # starts the next task whatever the outcome); observed, not judged - but never twice
+                obs["tasks_run_after_terminal_sibling"] += c
+                if c > 1:
+                    out.append(viol("C14/sibling-task-count", f"task {j} of the stage executed {c} times"))
     keys = []
     if k != 0:
         keys.append(f"{case['kind']}:{k}:{case['cu']}:{case['pos']}/{case['ntasks']}:{case['order']}")
